@@ -6,6 +6,7 @@
 package handlers
 
 import (
+	"encoding/json"
 	"context"
 	"fmt"
 	"strings"
@@ -95,6 +96,40 @@ type Sess struct {
 	n      int
 	ended  bool
 	endErr error
+	held   []heldMsg // what the client side received, with its wording at that moment
+}
+
+type heldMsg struct {
+	m    mocrelay.ServerMsg
+	text string
+}
+
+// hold remembers a received server message together with its encoding at the moment of
+// receipt (the last 512 are kept).
+func (s *Sess) hold(m mocrelay.ServerMsg) {
+	b, err := json.Marshal(m)
+	if err != nil {
+		return
+	}
+	if len(s.held) >= 512 {
+		s.held = append(s.held[:0], s.held[256:]...)
+	}
+	s.held = append(s.held, heldMsg{m, string(b)})
+}
+
+// Altered reports a message that no longer reads as it did when the client received it
+// (a reply object that the handler under test re-used for a later reply), or "".
+func (s *Sess) Altered() string {
+	for i, h := range s.held {
+		b, err := json.Marshal(h.m)
+		if err != nil {
+			return fmt.Sprintf("message %d of the session, received as %s, can no longer be encoded: %v", i, h.text, err)
+		}
+		if string(b) != h.text {
+			return fmt.Sprintf("message %d of the session was received as %s and now reads %s", i, h.text, b)
+		}
+	}
+	return ""
 }
 
 // Rig drives sessions of handler H = stack(Down).
@@ -140,6 +175,7 @@ func (s *Sess) collectUntil(text string) ([]mocrelay.ServerMsg, error) {
 				return out, nil
 			}
 			out = append(out, m)
+			s.hold(m)
 		case err := <-s.ret:
 			s.ret <- err
 			return out, fmt.Errorf("session ended while waiting for %q: %v", text, err)
